@@ -333,26 +333,45 @@ func judgeLogStructure(c *Ctx, path, lock string, ops []fsOp, wit map[string]int
 	}
 	// suffix reads and ignore lists on a fresh handle
 	r := sched.Derive(uint64(len(all)), 16)
-	for k := 0; k < 4 && len(all) > 0; k++ {
+	for k := 0; k < 8 && len(all) > 0; k++ {
 		from := r.Intn(len(all) + 1)
 		h, _ := file_storage.NewFileStorage(path, lock)
 		ign := map[int]bool{}
-		var byID, byOff []string
-		for i := 0; i < 2; i++ {
-			p := r.Intn(len(all))
-			ign[p] = true
-			if i == 0 {
-				byID = append(byID, all[p].ID)
-			} else {
-				byOff = append(byOff, strconv.Itoa(p))
+		// the ignore lists are built the way an operator builds them: by one or several calls, each by
+		// message id or by offset, with repeats and with offsets beyond the end of the log
+		calls := 0
+		if k > 0 {
+			calls = 1 + r.Intn(4)
+		}
+		if k == 1 {
+			calls = 2
+		}
+		var shape []string
+		for ci := 0; ci < calls; ci++ {
+			byOff := r.Intn(2) == 0
+			if k == 1 {
+				byOff = ci == 1 // the plain case: one call by id, then one by offset
 			}
+			var list []string
+			for e, ne := 0, r.Intn(4); e < ne || (k == 1 && e < 1); e++ {
+				p := r.Intn(len(all))
+				if byOff && r.Intn(6) == 0 {
+					list = append(list, strconv.Itoa(len(all)+r.Intn(5)))
+					continue
+				}
+				ign[p] = true
+				if byOff {
+					list = append(list, strconv.Itoa(p))
+				} else {
+					list = append(list, all[p].ID)
+				}
+			}
+			if err := h.IgnoreMessages(list, byOff); err != nil {
+				c.Violate("C16/ignore-call-fails", fmt.Sprintf("IgnoreMessages(%v, %v): %v", list, byOff, err), wit)
+			}
+			shape = append(shape, fmt.Sprintf("%v:%d", byOff, len(list)))
 		}
-		if k == 0 {
-			ign = map[int]bool{}
-		} else {
-			_ = h.IgnoreMessages(byID, false)
-			_ = h.IgnoreMessages(byOff, true)
-		}
+		c.Distinct("ignore-calls|" + strings.Join(shape, ","))
 		got, err := h.GetMessages(uint64(from))
 		h.Close()
 		if err != nil {
